@@ -79,7 +79,15 @@ def mon_roundtrip(case):
     out = []
     payload, idcaller, posted, cur = {}, {}, {}, None
     slowposted = {}
+    started, rt_deadline = {}, {}
     for i, (ws, obs, side) in enumerate(case["steps"]):
+        for x in side:
+            m = re.match(r"caller(\d+) start \S+ @(\d+)", x)
+            if m:
+                started[m.group(1)] = int(m.group(2))
+            m = re.match(r"deadline rt (id#\d+) (\d+)", x)
+            if m:
+                rt_deadline.setdefault(m.group(1), (i, int(m.group(2))))
         if ws[0] == "invoke":
             payload[ws[1]] = kvtok(ws, "h")
         idref = None
@@ -88,6 +96,9 @@ def mon_roundtrip(case):
         if ws[0] == "rt" and ws[1] == "slowresponse":
             tgt = cur if ws[2] == "cur" else ws[2]
             slowposted.setdefault(tgt, []).append("bytes:" + (kvtok(ws, "h") or "?"))
+        if ws[0] == "rt" and ws[1] == "slowerror":
+            tgt = cur if ws[2] == "cur" else ws[2]
+            slowposted.setdefault(tgt, []).append("errjson:" + ws[3])
         for e in entries(obs):
             m = re.match(r"rt\.next=200,(id#\d+),body=([^,]*),arn=(\w+),ctx=ctx(\d+)", e)
             if m:
@@ -117,6 +128,14 @@ def mon_roundtrip(case):
                     out.append(f"step {i+1}: caller {c} received {body} but the runtime posted {want[-1]} for its request")
                 if not want and body.startswith("bytes:"):
                     out.append(f"step {i+1}: caller {c} received a payload although the runtime posted none for its request")
+    # the deadline handed to the runtime is arrival time + configured timeout (one-sided slack for the time
+    # between the harness's time stamp and the emulator's: 250 ms)
+    for idk, (i, d) in rt_deadline.items():
+        c = idcaller.get(idk)
+        if c in started:
+            off = d - (started[c] + cfg(case)["timeout"])
+            if abs(off) > 250:
+                out.append(f"step {i+1}: the deadline given to the runtime for {idk} is arrival + timeout {off:+d} ms (caller {c} arrived at {started[c]}, timeout {cfg(case)['timeout']} ms, deadline {d})")
     return out
 
 
@@ -144,11 +163,11 @@ def mon_accept_once(case):
     nslow = 0
     for i, (ws, obs, side) in enumerate(case["steps"]):
         es = entries(obs)
-        if ws[0] == "rt" and ws[1] == "slowresponse":
+        if ws[0] == "rt" and ws[1] in ("slowresponse", "slowerror"):
             nslow += 1
             slow[str(nslow)] = cur if ws[2] == "cur" else ws[2]
         for e in es:
-            m = re.match(r"rt\.slowresponse#(\d+)=(\d+)", e)
+            m = re.match(r"rt\.slow(?:response|error)#(\d+)=(\d+)", e)
             if m and m.group(1) in slow:
                 target = slow.pop(m.group(1))
                 if m.group(2) in ("202", "413"):
